@@ -691,6 +691,70 @@ where
     }
 }
 
+#[cfg(feature = "verif-hooks")]
+impl<C, B, K> Pool<C, B, K>
+where
+    B: Send + 'static,
+    C: PoolableConnection<B>,
+    K: Key,
+{
+    /// Read-only snapshot of the pool tables (verification seam).
+    pub(in crate::client) fn verif_snapshot(
+        &self,
+        describe: &dyn Fn(&C) -> String,
+    ) -> crate::verif_hooks::PoolSnapshot {
+        use crate::verif_hooks::{IdleSnapshot, PoolSnapshot, TokenSnapshot};
+
+        let inner = self.inner.lock();
+        let mut tokens: Vec<Token> = inner
+            .connecting
+            .iter()
+            .copied()
+            .chain(inner.waiting.keys().copied())
+            .chain(inner.idle.keys().copied())
+            .collect();
+        tokens.sort_by_key(|t| t.verif_index());
+        tokens.dedup();
+
+        let now = crate::verif_hooks::now();
+        let tokens = tokens
+            .into_iter()
+            .map(|token| TokenSnapshot {
+                token: token.verif_index(),
+                connecting: inner.connecting.contains(&token),
+                waiters_closed: inner
+                    .waiting
+                    .get(&token)
+                    .map(|w| w.iter().map(|tx| tx.is_closed()).collect())
+                    .unwrap_or_default(),
+                idle: inner
+                    .idle
+                    .get(&token)
+                    .map(|idle| {
+                        idle.verif_entries()
+                            .map(|(at, conn)| IdleSnapshot {
+                                conn: describe(conn),
+                                open: conn.is_open(),
+                                shareable: conn.can_share(),
+                                age: now.saturating_duration_since(at),
+                            })
+                            .collect()
+                    })
+                    .unwrap_or_default(),
+            })
+            .collect();
+
+        let mut keys: Vec<(String, usize)> = self.keys.lock().verif_entries();
+        keys.sort_by_key(|(_, t)| *t);
+
+        PoolSnapshot {
+            tokens,
+            keys,
+            max_idle_per_host: inner.config.max_idle_per_host,
+        }
+    }
+}
+
 #[cfg(all(test, feature = "mocks"))]
 mod tests {
 
